@@ -221,7 +221,9 @@ def OR(*ops):
 CONTRACTS.append(
     # the prefix of _execute up to the hand-over to the cursor: statement assembly
     Contract(M, 'SqlMethod._execute', name='SqlMethod._execute/statement', prop=PROP, spec_globals=G, level='top',
-             body_slice={'stop_before': 'logger.debug("SQL request', 'result': '(sql, req_params, as_scalars)'},
+             body_slice={'stop_before': 'conn.cursor()',
+                         'result_call': {'func': '*.execute', 'signature': ['operation', 'parameters'],
+                                         'pick': ['operation', 'parameters'], 'then': ['as_scalars']}},
              params={'self': METHOD(), 'conn': T.opaque('conn', pytype=object),
                      'args': T.one_of(T.tuple(), T.tuple(COND('>', SCALAR)), T.tuple(T.none, T.tuple(T.str, SCALAR)),
                                       T.tuple(T.tuple(T.str, T.const('in'), T.symcoll(list)),
